@@ -185,8 +185,8 @@ CHECKS = {
             "script calls are evaluated in V8: all script elements in document order, then every handler attribute in document order",
             "a shared context is one that was initialised (templ.InitializeContext or the CSS middleware) before rendering; an uninitialised context.Background() gives every render its own state by design",
         ],
-        "quick": {"timeout": 900, "runs": [{"run": "^TestPropHistories$", "rapid_checks": 3000}, {"run": "^TestPropNested$", "rapid_checks": 150}]},
-        "thorough": {"timeout": 3000, "shards": 8, "runs": [{"run": "^TestPropHistories$", "rapid_checks": 60000}, {"run": "^TestPropNested$", "rapid_checks": 2000}]},
+        "quick": {"timeout": 900, "runs": [{"run": "^TestPropHistories$", "rapid_checks": 3000}, {"run": "^TestPropNested$", "rapid_checks": 150}, {"run": "^TestPropBare$", "rapid_checks": 1500}]},
+        "thorough": {"timeout": 3000, "shards": 8, "runs": [{"run": "^TestPropHistories$", "rapid_checks": 60000}, {"run": "^TestPropNested$", "rapid_checks": 2000}, {"run": "^TestPropBare$", "rapid_checks": 20000}]},
     },
     "C13": {
         "pkg": "./checks/c13",
